@@ -75,7 +75,7 @@ fn engine_source(rng: &mut Rng, dir: &str, n: u64, big: bool) -> Option<Source> 
 
 fn synth_source(rng: &mut Rng) -> Source {
     let version = *rng.pick(&[1u32, 2, 2]);
-    let blocks = *rng.pick(&[24u64, 32, 64]);
+    let blocks = *rng.pick(&[40u64, 48, 64]);
     let mut image = indep::fresh_image(version, blocks);
     let val = |rng: &mut Rng, k: &[u8], n: u32| values::make(Tag { key_id: kid(k), writer: 1, seq: n }, *rng.pick(&[30usize, 300, 4070, 6000]));
     let class: &'static str;
@@ -477,7 +477,9 @@ pub fn run(args: &Args) -> Report {
         }));
     }
     for h in handles {
-        let _ = h.join();
+        if h.join().is_err() {
+            report.inconclusive.push("HARNESS-PANIC: a migrate worker thread panicked (its results are lost)".into());
+        }
     }
     let m = std::sync::Arc::try_unwrap(merged).ok().unwrap().into_inner();
     report.merge(m);
